@@ -1,0 +1,26 @@
+//go:build verif
+
+package kmip
+
+import "reflect"
+
+// This file is only compiled with the "verif" build tag. It exposes read-only
+// views of package internals to the external verification harness.
+
+// VerifOperationRegistry returns operation -> (request type, response type).
+func VerifOperationRegistry() map[Operation][2]reflect.Type {
+	out := map[Operation][2]reflect.Type{}
+	for op, t := range operationRegistry {
+		out[op] = [2]reflect.Type{t.request, t.response}
+	}
+	return out
+}
+
+// VerifAttrTypes returns the attribute name -> value type table.
+func VerifAttrTypes() map[AttributeName]reflect.Type {
+	out := map[AttributeName]reflect.Type{}
+	for k, v := range attrTypes {
+		out[k] = v
+	}
+	return out
+}
